@@ -28,7 +28,7 @@ CLAIMED = {
 
     "C01": dict(
         technique="Lean 4: whole-program end-to-end theorems over `run` with history variables (E2E_conservation: accepted = in flight + consumed + discarded + lost at exit, per token item; E2E_default_flush_exactly_once: after a flush the reported records are exactly the records of every accepted span set, once), built on the collector conservation theorem (report of a default-configuration cycle is a permutation of exactly the submitted span sets, one per token item; Flushed/KeysNodup invariants) + drain lemmas; differential fh-seq vs model incl. stepped drains and thread exit; independent python spec oracle (exactly-once, due cycle)",
-        text="Kernel-checked for every collector state and every drained batch: C01_cycle_reports_everything_once (nothing drained is held back, duplicated or invented; the stale path for late spans gives the same result), with the invariants it needs proved preserved and initially true. Drain: C08_drain_batch / C08_drain_removes_dead. Over EVERY program of the model (Props/E2E.lean, invariants ChanInv / Dflt / HasRep proved preserved by all 50 operations): E2E_conservation, E2E_overflow_only_signals, E2E_default_reports_consumed, E2E_flush_delivers(_starts/_collections), E2E_default_flush_exactly_once (default configuration, reporter installed first: when flush() returns, reported records = records of every span set any channel accepted, each exactly once). "
+        text="Kernel-checked for every collector state and every drained batch: C01_cycle_reports_everything_once (nothing drained is held back, duplicated or invented; the stale path for late spans gives the same result), with the invariants it needs proved preserved and initially true. Drain: C08_drain_batch / C08_drain_removes_dead. Over EVERY program of the model (Props/E2E.lean, invariants ChanInv / Dflt / HasRep proved preserved by all 51 operations): E2E_conservation, E2E_overflow_only_signals, E2E_default_reports_consumed, E2E_flush_delivers(_starts/_collections), E2E_default_flush_exactly_once (default configuration, reporter installed first: when flush() returns, reported records = records of every span set any channel accepted, each exactly once). E2E_nothing_invented (any configuration: nothing is reported or buffered that is not a copy of a consumed span set). "
              "Tie: programs with 1-3 logical threads (real OS threads, real TLS destructors), hand-off of spans between threads, thread exit, cycles at every position (whole, or stepped through the verif hook points incl. the empty-pop/abandoned-check window), run against the real crate and the Lean model; an independent specification checks that every finished sampled span is delivered exactly once, in the report of the first cycle after it finished.",
         note="The end-to-end composition over `run` is now one theorem (E2E_default_flush_exactly_once) at the model's operation granularity; interleavings of single ring pushes with pops are the channel theorems of C09; the wall-clock bound (one report interval) is outside the model. History variables (Sys.g) are written by sendCmd/finishCycle/exitThread only and read by no operation. Trusted: rtrb as a sequentially consistent FIFO; python spec.",
         design="§4 C01"),
@@ -98,7 +98,7 @@ CLAIMED = {
 
     "C09": dict(
         technique="Lean 4: step-granularity channel model with universally quantified pop placements; refinement-to-queue theorem, forced-never-dropped, FIFO, lossy-only-when-full, capacity, drop-sublist; differential on the real spsc::bounded(k) with pops injected before individual ring pushes (SenderBeforePush hook), exhaustive short sequences; overload scenarios on the real 10240-slot queue",
-        text="Kernel-checked for every capacity and every interleaving of the sender's individual ring pushes with consumer pops: C09_channel_is_a_queue (received ++ ring ++ parked grows by exactly the accepted value), C09_forced_never_dropped, C09_forced_fifo (finish/cancel signals exactly once, in order, never overtaken: D2 fix), C09_lossy_only_when_full, C09_capacity, C09_pops_preserve, C09_drop_sublist (thread exit only deletes). Local limits: C07_queue_at_limit / C07_scope_at_limit. Whole programs (Props/E2E.lean): E2E_conservation (nothing accepted is lost or duplicated anywhere between channel and processing loops), E2E_overflow_only_signals (a best-effort send is never parked); Props/Fifo.lean: Fifo_per_thread_order (for every program and every thread that has not exited: accepted in order = popped by the collector in order ++ ring ++ overflow list, through every collector step incl. both drain passes), Fifo_drained_is_prefix, Fifo_no_overtaking. "
+        text="Kernel-checked for every capacity and every interleaving of the sender's individual ring pushes with consumer pops: C09_channel_is_a_queue (received ++ ring ++ parked grows by exactly the accepted value), C09_forced_never_dropped, C09_forced_fifo (finish/cancel signals exactly once, in order, never overtaken: D2 fix), C09_lossy_only_when_full, C09_capacity, C09_pops_preserve, C09_drop_sublist (thread exit only deletes). Local limits: C07_queue_at_limit / C07_scope_at_limit. Whole programs (Props/E2E.lean): E2E_conservation (nothing accepted is lost or duplicated anywhere between channel and processing loops), E2E_overflow_only_signals (a best-effort send is never parked), E2E_nothing_invented (in either configuration every reported record is a record of a copy of a span set the processing loops were handed: overload can only omit); Props/Fifo.lean: Fifo_per_thread_order (for every program and every thread that has not exited: accepted in order = popped by the collector in order ++ ring ++ overflow list, through every collector step incl. both drain passes), Fifo_drained_is_prefix, Fifo_no_overtaking. "
              "Tie: the real Sender/Receiver with capacities 1-8: all op sequences up to length 4 (quick) / 6 (thorough) over {send, force_send, pop, force_send with a pop before every push} plus random longer ones with random pop placements and sender drop, compared with the model and checked by an independent FIFO oracle; four scenarios that fill the real 10240-slot queue (cancel / finish / start while full, recovery afterwards) compared with the system model and with explicit expectations.",
         note="Open finding D3: Sender::drop at thread exit loses parked commands when the ring is full (C09 limits itself to 'while the thread lives'; witness in Props/C09.lean). rtrb is modelled as a FIFO with exact capacity.",
         design="§4 C09"),
